@@ -66,7 +66,9 @@ Resolver("Query.mid", schema_name="c08_ov", parent_concurrently=False)(universal
 Resolver("Query.sum", schema_name="c08_ov", arguments_coercer=sync_arguments_coercer)(universal)
 ENGS.append(build(SDL, "c08_ov", custom_default_resolver=universal, query_cache_decorator=DictCache()))
 
-Q = "{ n mid { n leaf { n } leaves { n } } mids { n } sum(a: 1, b: 2) m2 { leaf { n } nnl { n } } }"
+# the list sub-selection carries collection-time directives (@include / @skip: their arguments are coerced while the fields are collected,
+# once per list item, possibly concurrently)
+Q = "{ n mid { n leaf { n } leaves { n @skip(if: false) } } mids { n @include(if: true) k: n @skip(if: false) z: n @include(if: false) } sum(a: 1, b: 2) m2 { leaf { n } nnl { n } } }"
 LEAF = {"n": 3}
 MID = {"n": 2, "leaf": LEAF, "leaves": [LEAF, {"n": 4}]}
 DATA = {"n": 1, "mid": MID, "mids": [MID, {"n": 5}], "m2": {"leaf": {"n": 6}, "nnl": [{"n": 7}, {"n": 8}, {"n": 9}]}}
@@ -96,6 +98,21 @@ for _l in LAYOUTS:
     _ok, _r, _loop, _log = run(ENGS[0], _l, None)
     assert _ok
     REF[_l] = _r
+# the expected `data` does not come from the engine: reference executor (vf/ref/execute.py) over an independent reading of the SDL
+from vf.ref.model import model_from_sdl  # noqa: E402
+from vf.ref.execute import Ref, to_pairs  # noqa: E402
+from vf import gqlfront  # noqa: E402
+_MODEL = model_from_sdl(SDL)
+_AST = gqlfront.parse(Q)
+EXPECT = {}
+for _l, (_g, _f) in LAYOUTS.items():
+    def _rr(ptype, fname, parent, args, path, _f=_f):
+        if path in _f:
+            raise ValueError("boom")
+        if fname == "sum":
+            return (args.get("a") or 0) * 10 + (args.get("b") or 0)
+        return read(parent, fname)
+    EXPECT[_l] = Ref(_MODEL, _AST, _rr, None).execute(None, {}, DATA)
 for _e in ENGS:
     run(_e, "fields", None)
 
@@ -117,7 +134,7 @@ def well_behaved(loop, log):
             symbolic=["c0..c4: which pending resolver completes next (the completion order)"],
             selectors=["shard: engine configuration (9), gate layout (4)"],
             bounds="every completion order of <= 5 gated resolvers / argument hooks",
-            note="response equals the FIFO/default response under every completion order and configuration; all started work finished; nothing started twice")
+            note="response equals the FIFO/default response and the reference executor's data under every completion order and configuration (the list sub-selections carry @include/@skip); all started work finished; nothing started twice")
 def c08_order(c0: int, c1: int, c2: int, c3: int, c4: int) -> bool:
     """
     post: _
@@ -135,7 +152,7 @@ def c08_order(c0: int, c1: int, c2: int, c3: int, c4: int) -> bool:
     if not ok:
         return verdict(False)
     ref = REF[sh["layout"]]
-    if resp.get("data") != ref.get("data"):
+    if resp.get("data") != ref.get("data") or to_pairs(resp.get("data")) != EXPECT[sh["layout"]]:
         return verdict(False)
     ep = sorted(repr(e["path"]) for e in resp.get("errors", []))
     rp = sorted(repr(e["path"]) for e in ref.get("errors", []))
